@@ -29,7 +29,7 @@ theorem C16_remap_spec (es : List Elem) (pos i : Nat) :
 
 /-- positions of one expanded rule are pairwise distinct (each source symbol occurs at most once) -/
 @[reducible] def PosDistinct (es : List Elem) : Prop :=
-  ∀ i j p, 0 < p → (build es).rhs[i]? = some (RSym.sym p) → (build es).rhs[j]? = some (RSym.sym p) → i = j
+  ∀ (i j p : Nat), 0 < p → (build es).rhs[i]? = some (RSym.sym p) → (build es).rhs[j]? = some (RSym.sym p) → i = j
 
 /-- With distinct positions (true for every expansion of a source rule; checked by the harness):
 `Remap[pos] = i` iff the `i`-th stack symbol of the expanded rule is the reference allocated `pos`. -/
@@ -103,10 +103,6 @@ theorem C16_resolve_defined (v : Vars) (val : Str) :
       | cons p0 ps =>
         simp only
         cases activeOf v (p0 :: ps) <;> simp
-
-theorem mem_activeOf (v : Vars) (ps : List Nat) (p : Nat) :
-    p ∈ activeOf v ps ↔ p ∈ ps ∧ (v.remap.lookup p).isSome = true := by
-  unfold activeOf; simp [List.mem_filter]
 
 /-- Absent references: `Resolve` returns index −1 (and end index −1) exactly when NO position of the
 reference survives in this expansion, i.e. none of them is a key of `Remap`. -/
@@ -279,17 +275,6 @@ theorem C16_slot_spec {β : Type} (stack entries : List β) (n i : Nat)
 example : StackHolds [10, 20, 30, 40] [30, 40] 2 ∧ stackAt [10, 20, 30, 40] ((2 : Int) - 0) = some 30 :=
   ⟨⟨[10, 20], rfl, rfl⟩, by decide⟩
 
-theorem lookup_mem (m : List (Nat × Nat)) (p i : Nat) (h : m.lookup p = some i) : (p, i) ∈ m := by
-  induction m with
-  | nil => cases h
-  | cons e m ih =>
-    obtain ⟨a, b⟩ := e
-    by_cases hpa : p = a
-    · subst hpa; simp [List.lookup] at h; subst h; exact List.mem_cons_self ..
-    · have : (p == a) = false := by simpa using hpa
-      simp [List.lookup, this] at h
-      exact List.mem_cons_of_mem _ (ih h)
-
 /-- End-of-rule actions: for the environment built by `traverse` (`Remap = actualPos`,
 `SymRefCount = numRefs`), a position with `Remap[pos] = i` evaluates — value, offset and end offset — to the
 stack entry of the `i`-th right-hand-side symbol, and that symbol is the reference allocated `pos`. -/
@@ -383,7 +368,7 @@ theorem C16_locate_absent_iff (v : Vars) (id : Str) (hp : plainId id) :
     simp only
     by_cases hidx : r.index = -1
     · have : ¬ (r.pos == 0 ∧ r.index ≥ 0) := by rw [hidx]; simp
-      simp [this, hidx]
+      simp [hidx]
     · by_cases hc : (r.pos == 0 ∧ r.index ≥ 0)
       · simp only [hc, and_self, if_true]
         constructor
